@@ -56,6 +56,9 @@ func kHdrParse(args []string) (string, string) {
 	pairs, findings, rest, errTag := gowarc.VerifParseFields(syn, &gowarc.VerifStream{Data: data, Fault: fault})
 	// chunking independence of the implementation itself
 	for style := 1; style <= 3; style++ {
+		if fault && style == 3 {
+			continue // see kUnmarshal: an error delivered together with data may surface earlier than a separate one
+		}
 		p2, f2, r2, e2 := gowarc.VerifParseFields(syn, &gowarc.VerifStream{Data: data, Fault: fault, Style: style})
 		if showPairs(p2) != showPairs(pairs) || showList(f2) != showList(findings) || r2 != rest || e2 != errTag {
 			return "chunking-dependent", fmt.Sprintf("VIOL chunking style=%d", style)
